@@ -60,3 +60,91 @@ def lossy_uses(mod, fn, field: str, mapping_valued: bool = True) -> list[tuple[i
             seen.add(x)
             res.append(x)
     return res
+
+
+def merge_purity_obligations(repo, rel="redun/utils.py", entry="merge_dicts"):
+    """merge_dicts is used on option/context dicts that are shared by reference between a Task, its clones and every expression created from them:
+    it must not write into its inputs.  Within the entry function and the module-level helpers it calls: an in-place mutation (subscript store,
+    append/update/setdefault/pop/...) is fine on a container created in that function; a helper that mutates one of its parameters may only be
+    handed a container the caller created itself -- handing it `target[key]` (something previously stored from an input) mutates the input.
+    Yields (construct, ok, message, rel, line)."""
+    from .core import FuncNode
+
+    m = repo.mod(rel)
+    MUT = {"append", "update", "setdefault", "pop", "popitem", "clear", "extend", "insert", "remove", "__setitem__"}
+    todo, seen = [entry], set()
+    summaries = {}
+    out = []
+    while todo:
+        name = todo.pop()
+        if name in seen or name not in m.funcs:
+            continue
+        seen.add(name)
+        fn = m.funcs[name]
+        params = [a.arg for a in fn.args.args]
+        fresh = set()
+        for a in ast.walk(fn):
+            if isinstance(a, (ast.Assign, ast.AnnAssign)) and a.value is not None:
+                tg = a.targets[0] if isinstance(a, ast.Assign) else a.target
+                v = a.value
+                is_fresh = isinstance(v, (ast.Dict, ast.List, ast.Set, ast.DictComp, ast.ListComp, ast.SetComp)) or (isinstance(v, ast.Call) and (call_name(v) or "") in ("dict", "list", "set", "defaultdict", "collections.defaultdict", "OrderedDict"))
+                if isinstance(tg, ast.Name) and is_fresh:
+                    fresh.add(tg.id)
+
+        def root(e):
+            while isinstance(e, (ast.Subscript, ast.Attribute, ast.Call)):
+                e = e.value if isinstance(e, (ast.Subscript, ast.Attribute)) else e.func
+            return e.id if isinstance(e, ast.Name) else None
+
+        mutated_params = set()
+        for n in ast.walk(fn):
+            tgt = None
+            if isinstance(n, (ast.Assign, ast.AugAssign)):
+                for t in n.targets if isinstance(n, ast.Assign) else [n.target]:
+                    if isinstance(t, ast.Subscript):
+                        tgt = t.value
+            elif isinstance(n, ast.Call) and isinstance(n.func, ast.Attribute) and n.func.attr in MUT:
+                tgt = n.func.value
+            elif isinstance(n, ast.Delete):
+                for t in n.targets:
+                    if isinstance(t, ast.Subscript):
+                        tgt = t.value
+            if tgt is None:
+                continue
+            r = root(tgt)
+            if r in fresh:
+                continue
+            if r in params:
+                mutated_params.add(params.index(r))
+                if name == entry:
+                    out.append((f"{rel}:{name}:mutates-input", False, f"`{src(n)[:60]}` writes into the argument `{r}` of {name}", rel, n.lineno))
+                continue
+            out.append((f"{rel}:{name}:mutates:{r}", False, f"`{src(n)[:60]}` in {name} mutates `{r}`, which is neither created in {name} nor one of its parameters", rel, n.lineno))
+        summaries[name] = mutated_params
+        for c in ast.walk(fn):
+            if isinstance(c, ast.Call) and isinstance(c.func, ast.Name) and c.func.id in m.funcs and c.func.id != name:
+                todo.append(c.func.id)
+    # call sites of parameter-mutating helpers
+    for name in seen:
+        fn = m.funcs[name]
+        fresh = {t.id for a in ast.walk(fn) if isinstance(a, (ast.Assign, ast.AnnAssign)) and a.value is not None for t in [a.targets[0] if isinstance(a, ast.Assign) else a.target] if isinstance(t, ast.Name) and (isinstance(a.value, (ast.Dict, ast.DictComp)) or (isinstance(a.value, ast.Call) and (call_name(a.value) or "") in ("dict", "defaultdict")))}
+        for c in ast.walk(fn):
+            if isinstance(c, ast.Call) and isinstance(c.func, ast.Name) and summaries.get(c.func.id):
+                for i in summaries[c.func.id]:
+                    if i < len(c.args):
+                        a = c.args[i]
+                        ok = isinstance(a, ast.Name) and a.id in fresh
+                        out.append(
+                            (
+                                f"{rel}:{name}:{c.func.id}({src(a)[:30]})",
+                                ok,
+                                f"{name} hands `{src(a)}` to {c.func.id}(), which writes into that argument; `{src(a)}` is not a container created in {name} -- it can be a nested dict that was stored by reference from "
+                                f"one of {entry}'s inputs, so merging rewrites the caller's dict: Task.update_context() on a derived task then changes the options (and the hash) of the original task and of every "
+                                "expression already created from it, and a parent job's context picks up its child's override",
+                                rel,
+                                c.lineno,
+                            )
+                        )
+    if not out:
+        out.append((f"{rel}:{entry}:pure", True, "", rel, m.funcs[entry].lineno))
+    return out
